@@ -10,6 +10,11 @@ empty string is a visible token).
   dirrow|filerow <x<prefix>|-> x<item>           -> x<escaped href of an index row>
   bc <x<prefix>|-> x<parent> <depth>             -> x<top-level item> x<parent item>
                                                     (the two breadcrumb `<li>` of a file page)
+  sink title|current x<name>                     -> x<fragment>  (`titleFrag`, `currentItem`)
+  sink row x<url> x<name>                        -> x<fragment>  (`rowLink`)
+  sink pre x<class word> x<source line>          -> x<fragment>  (`preLine`)
+  sink dirrow|filerow <x<prefix>|-> x<item>      -> x<fragment>  (`rowLink` of `dirRowUrl` / `fileRowUrl`)
+  dirurl|fileurl <x<prefix>|-> x<item>           -> x<unescaped link>  (`dirRowUrl`, `fileRowUrl`)
 -/
 import GrcovModel.Escape
 import GrcovModel.Drv.Common
@@ -74,6 +79,37 @@ def handleRow (f : Option Bytes → Bytes → Bytes) : List String → String
     | _, _ => "bad-op"
   | _ => "bad-op"
 
+/-- the sinks of the templates -/
+def handleSink : List String → String
+  | ["title", n] => match arg n with
+    | some n => out (titleFrag n)
+    | none => "bad-op"
+  | ["current", n] => match arg n with
+    | some n => out (currentItem n)
+    | none => "bad-op"
+  | ["row", u, n] => match arg u, arg n with
+    | some u, some n => out (rowLink u n)
+    | _, _ => "bad-op"
+  | ["pre", c, t] => match arg c, arg t with
+    | some c, some t => out (preLine c t)
+    | _, _ => "bad-op"
+  | [kind, p, item] =>
+    let pre : Option (Option Bytes) := if p = "-" then some none else (arg p).map some
+    match kind, pre, arg item with
+    | "dirrow", some pre, some item => out (rowLink (dirRowUrl pre item) item)
+    | "filerow", some pre, some item => out (rowLink (fileRowUrl pre item) item)
+    | _, _, _ => "bad-op"
+  | _ => "bad-op"
+
+/-- `dirurl|fileurl <x<prefix>|-> x<item>`: the row link before escaping -/
+def handleUrl (f : Option Bytes → Bytes → Bytes) : List String → String
+  | [p, item] =>
+    let pre : Option (Option Bytes) := if p = "-" then some none else (arg p).map some
+    match pre, arg item with
+    | some pre, some item => out (f pre item)
+    | _, _ => "bad-op"
+  | _ => "bad-op"
+
 def step (line : String) : String :=
   match line.trimAscii.toString.splitOn " " with
   | "xmlattr" :: args => enc xmlAttr args
@@ -91,6 +127,9 @@ def step (line : String) : String :=
   | "bc" :: args => handleBc args
   | "dirrow" :: args => handleRow dirRowUrl args
   | "filerow" :: args => handleRow fileRowUrl args
+  | "sink" :: args => handleSink args
+  | "dirurl" :: args => handleUrl dirRowUrl args
+  | "fileurl" :: args => handleUrl fileRowUrl args
   | "scheme" :: args => enc (fun u => if hasScheme u then [49] else [48]) args
   | _ => "bad-op"
 
